@@ -350,7 +350,7 @@ func (lc *lockCase) workerOf(gid int64) int {
 // settle waits until every running worker is parked (at a gate, on the Locker's token, or returned)
 // and reports new arrivals / returns as trace events.
 func (lc *lockCase) settle(expectCas int) bool {
-	deadline := time.Now().Add(3 * time.Second)
+	deadline := time.Now().Add(settleBound)
 	casSeen := func() int {
 		n := 0
 		for _, c := range lc.store.snapshot() {
@@ -446,7 +446,7 @@ func (lc *lockCase) settle(expectCas int) bool {
 		if stable && casMissing {
 			// everything else stands still, only the renewal call(s) of the lease timer(s) just fired are missing
 			if time.Now().After(deadline) {
-				lc.ctx.R.Quiet("mon C05-fired-timer-renews", fmt.Sprintf("%d lease timer(s) fired, but only %d renewal call(s) reached the storage within 3s: a supportTimeout returned without trying to extend the lease (%s)", expectCas, casSeen(), lc.describe()))
+				lc.ctx.R.Quiet("mon C05-fired-timer-renews", fmt.Sprintf("%d lease timer(s) fired, but only %d renewal call(s) reached the storage within 10s: a supportTimeout returned without trying to extend the lease (%s)", expectCas, casSeen(), lc.describe()))
 				lc.failed = true
 				return false
 			}
@@ -468,7 +468,7 @@ func (lc *lockCase) settle(expectCas int) bool {
 			continue
 		}
 		if time.Now().After(deadline) {
-			lc.ctx.R.Quiet("mon C04-no-stuck-goroutine", "the system did not settle within 3s: "+lc.describe())
+			lc.ctx.R.Quiet("mon C04-no-stuck-goroutine", "the system did not settle within 10s: "+lc.describe())
 			lc.failed = true
 			return false
 		}
